@@ -54,7 +54,30 @@ impl Recv {
             }
     { unimplemented!() }
 }
-pub mod frame { use super::*; pub struct ResetStream { pub id: super::super::code::StreamId, pub error_code: VarInt, pub final_offset: VarInt } }
+#[verifier::external_body] pub struct Bytes { inner: Vec<u8> }
+impl View for Bytes { type V = Seq<u8>; uninterp spec fn view(&self) -> Seq<u8>; }
+impl Recv {
+    #[verifier::external_body] pub fn is_receiving(&self) -> (r: bool) ensures r == !self.reset { unimplemented!() }
+    /// clauses of Recv::ingest proved on the real function in unit recv (flow-control part)
+    #[verifier::external_body]
+    pub fn ingest(&mut self, frame: frame::Stream, payload_len: usize, received: u64, max_data: u64) -> (res: Result<(u64, bool), TransportError>)
+        requires old(self).wf_spec(), !old(self).reset, frame.offset < 0x4000_0000_0000_0000, frame.data@.len() < 0x1_0000_0000, frame.data@.len() <= payload_len,
+            received <= max_data < 0x4000_0000_0000_0000,
+        ensures final(self).wf_spec(), final(self).stopped == old(self).stopped, final(self).assembler.br == old(self).assembler.br, final(self).reset == old(self).reset,
+            match res {
+                Ok((n, closed)) => {
+                    let end = (frame.offset + frame.data@.len()) as u64;
+                    &&& received + n <= max_data
+                    &&& n == (if end > old(self).end { end - old(self).end } else { 0 })
+                    &&& final(self).end == (if end > old(self).end { end } else { old(self).end })
+                    &&& closed == (frame.fin && old(self).stopped)
+                },
+                Err(_) => final(self).end == old(self).end,
+            }
+    { unimplemented!() }
+}
+pub mod frame { use super::*; pub struct Stream { pub id: super::super::code::StreamId, pub offset: u64, pub fin: bool, pub data: Bytes }
+pub struct ResetStream { pub id: super::super::code::StreamId, pub error_code: VarInt, pub final_offset: VarInt } }
 /// what the map holds for `id` once a lazily created Recv has been materialised (None: no such stream)
 pub uninterp spec fn recv_abs(m: FxHashMap<super::code::StreamId, Option<StreamRecv>>, id: super::code::StreamId) -> Option<Recv>;
 /// `self.recv.get_mut(&id).map(get_or_insert_recv(self.stream_receive_window))`: the stream's receive half, created on first use.
@@ -189,6 +212,36 @@ impl StreamsState {
     pub fn on_stream_frame(&mut self, notify_readable: bool, stream: StreamId)
         ensures final(self).fc() == old(self).fc(), final(self).recv == old(self).recv, final(self).side == old(self).side,
     { unimplemented!() }
+
+//@ extract quinn-proto/src/connection/streams/state.rs :: impl StreamsState::fn received
+//@ props C06
+//@ ret res
+//@ closure 0 : &TransportError -> (u: ())
+//@ replace ws:self .recv .get_mut(&id) .map(get_or_insert_recv(self.stream_receive_window)) => recv_entry(&mut self.recv, id, self.stream_receive_window)
+//@ replace self.recv.remove(&id).flatten().unwrap() => recv_take(&mut self.recv, id)
+//@ contract
+        requires
+            old(self).sent_max_data.0 <= old(self).local_max_data || old(self).local_max_data > VarInt::MAX.0,
+            old(self).data_recvd <= old(self).local_max_data < 0x4000_0000_0000_0000,
+            frame.offset < 0x4000_0000_0000_0000, frame.data@.len() < 0x1_0000_0000, frame.data@.len() <= payload_len,
+        ensures match res {
+            Ok(_) => match recv_abs(old(self).recv, frame.id) {
+                Some(r0) => if !r0.reset {
+                    let end = (frame.offset + frame.data@.len()) as u64;
+                    let n = if end > r0.end { (end - r0.end) as u64 } else { 0u64 };
+                    // new bytes count against the connection limit exactly once and never take it over the advertised value ...
+                    &&& old(self).data_recvd + n <= old(self).local_max_data
+                    &&& final(self).data_recvd == old(self).data_recvd + n
+                    // ... and credit is returned at once only for a stream the application has stopped (its data is discarded on arrival)
+                    &&& final(self).local_max_data == (if r0.stopped { sat_add(old(self).local_max_data, sat_sub(n, old(self).receive_window_shrink_debt)) } else { old(self).local_max_data })
+                } else {
+                    final(self).fc() == old(self).fc()
+                },
+                None => final(self).fc() == old(self).fc(),
+            },
+            Err(_) => final(self).fc() == old(self).fc(),
+        }
+//@ end
 
 //@ extract quinn-proto/src/connection/streams/state.rs :: impl StreamsState::fn received_reset
 //@ props C06
